@@ -460,7 +460,7 @@ func runC11(tier, replay string) int {
 			}
 		}
 		r, err := c.RunTLC(core.TLCOpts{Spec: "Edits", CfgText: c11Cfg("{}", s == 0), Files: map[string][]byte{"c11_progs.ndjson": c11ProgFile(mine)},
-			Workers: 1, HeapGB: 2, Timeout: 40 * time.Minute})
+			Workers: 1, HeapGB: c.Pick(2, 6), Timeout: c11ShardTimeout(c)})
 		if err != nil {
 			c.BrokenF("TLC: %v", err)
 			return
@@ -583,4 +583,13 @@ func firstWords(s string, n int) string {
 		f = f[:n]
 	}
 	return strings.Join(f, " ")
+}
+
+// c11ShardTimeout: the thorough tier's shards hold ~40 programs each (more mutants per program since the mixed
+// const_assert conditions were added).
+func c11ShardTimeout(c *core.Ctx) time.Duration {
+	if c.Quick() {
+		return 40 * time.Minute
+	}
+	return 80 * time.Minute
 }
